@@ -158,6 +158,9 @@ ENVIRONMENTS = [
     ("default", {}),
     ("assertions-off", {"PYTHONOPTIMIZE": "1"}),
     ("c-locale-ascii", {"LC_ALL": "C", "LANG": "C", "PYTHONUTF8": "0", "PYTHONCOERCECLOCALE": "0"}),
+    # the application has switched debug logging on (root logger at DEBUG with a handler that formats every record):
+    # applied by vp.childmain before the shard runs
+    ("debug-logging", {"VERIF_LOGGING": "DEBUG"}),
     ("no-int-str-limit", {"PYTHONINTMAXSTRDIGITS": "0", "PYTHONSAFEPATH": "1"}),
 ]
 
